@@ -142,7 +142,13 @@ def check(ck: Checker) -> None:
             if is_method_call(c, "add") and len(c.args) == 3 and n.loops:
                 h = g3.nodes[n.loops[-1]]
                 lv = [norm(t) for t in ast.walk(h.ast.target) if isinstance(t, ast.Name)]
-                ck.require(all(norm(a) in lv for a in c.args), "C03.subtree", fl, n, "filter copies rows unchanged", f"filter rewrites rows: {norm(c)}")
+                def same_(a):
+                    # `key[0:]` (what a shared re-rooting helper inlines to for a zero-length cut) is `key`
+                    if isinstance(a, ast.Subscript) and isinstance(a.slice, ast.Slice) and a.slice.upper is None and a.slice.step is None and isinstance(a.slice.lower, ast.Constant) and a.slice.lower.value == 0:
+                        return norm(a.value)
+                    return norm(a)
+
+                ck.require(all(same_(a) in lv for a in c.args), "C03.subtree", fl, n, "filter copies rows unchanged", f"filter rewrites rows: {norm(c)}")
                 it = h.ast.iter
                 ck.require(isinstance(it, ast.Call) and norm(it.func.value) == "self._trie" and any(norm(a) == "prefix" for a in it.args), "C03.subtree", fl, h, "filter selects by trie prefix", f"filter iterates {norm(it)}")
 
